@@ -2048,7 +2048,16 @@ func (db *DB) CommitJournal(ctx context.Context, mode JournalMode) (err error) {
 	var commit uint32
 	if _, err := dbFile.Seek(SQLITE_DATABASE_SIZE_OFFSET, io.SeekStart); err != nil {
 		return fmt.Errorf("cannot seek to database size: %w", err)
-	} else if err := binary.Read(dbFile, binary.BigEndian, &commit); err != nil {
+	} else if err := binary.Read(dbFile, binary.BigEndian, &commit); (err == io.EOF || err == io.ErrUnexpectedEOF) && prevPageN == 0 {
+		// The database file is still (or again) empty: the first transaction
+		// of a new database was rolled back by the client. Nothing to commit.
+		if err := db.invalidateJournal(mode); err != nil {
+			return fmt.Errorf("invalidate journal: %w", err)
+		}
+		db.dirtyPageSet = make(map[uint32]struct{})
+		db.journalTx = false
+		return nil
+	} else if err != nil {
 		return fmt.Errorf("cannot read database size: %w", err)
 	}
 
